@@ -16,6 +16,12 @@ TExport == /\ Ev("Export") /\ LET ev == Log[l] IN
               /\ ev.rows >= 1 /\ ev.cols >= 1 /\ ev.hdr >= 0
               /\ ev.lines = ev.hdr + ev.rows                          \* what is on disk is what FileOf describes
               /\ file' = <<ev.kind, ev.rows, ev.cols, ev.hdr>>
+\* Save_Function (beyond the listed properties; validated from a trace of its own, a rejection is a note): the number of
+\* lines on disk is the number of grid nodes; the Import that follows compares every cell with the grid and the curve
+TSaved == /\ Ev("Saved") /\ LET ev == Log[l] IN
+              /\ ev.dim \in {1, 2} /\ ev.xp >= 2 /\ ev.yp >= 0
+              /\ ev.lines = SavedRows(ev.dim, ev.xp, ev.yp)
+              /\ file' = <<"saved", SavedRows(ev.dim, ev.xp, ev.yp), SavedCols(ev.dim), 0>>
 TImport == /\ Ev("Import") /\ file # <<>> /\ LET ev == Log[l] IN
               /\ ev.skipped = HeaderLines(file[4])
               /\ ev.rows = file[2] /\ ev.cols = file[3]              \* same shape
@@ -25,7 +31,7 @@ TImport == /\ Ev("Import") /\ file # <<>> /\ LET ev == Log[l] IN
 TInUnits == /\ Ev("InUnits") /\ Log[l].q <= 1 /\ Log[l].same /\ Log[l].roundok /\ UNCHANGED file
 \* a unit constant as seen in one build: non-zero, equal to its defining product within 4 ulp, bit-identical in all builds
 TUnit == /\ Ev("Unit") /\ Log[l].nonzero /\ Log[l].ulp <= 4 /\ Log[l].samebits /\ UNCHANGED file
-Next == TExport \/ TImport \/ TInUnits \/ TUnit
+Next == TExport \/ TSaved \/ TImport \/ TInUnits \/ TUnit
 Spec == Init /\ [][Next]_vars
 TraceAccepted == TLCGet("stats").diameter - 1 = Len(Log)
 =============================================================================
